@@ -84,14 +84,18 @@ CLAIMED['C08'] = dict(level='proof', design='DESIGN.md section 7 (C08)', techniq
     text='Routing contracts of PartFlowController, DecisionGate, GroupPath/GroupInput/GroupOutput and Part history: offers only to '
          'configured downstreams in waiting-since order, gates and blocked inputs refuse cleanly, refusals clean history and group '
          'stack, group exit through the entry path (defect repaired), sink collects in arrival order.',
-    note='Trusted: pyvc encoding; sorted() contract; Group.__init__ and three forwarding methods not under contract.')
+    note='Trusted: pyvc encoding; sorted() contract; Group.__init__ (set iteration), GroupInput.__init__, GroupOutput.__init__ and the aggregate getters GroupInput.upstream / GroupOutput.downstream are not under contract (GroupPath.__init__ and Group.get_new_group_path are).')
 CLAIMED['C15'] = dict(level='proof', design='DESIGN.md section 7 (C15)', technique=T_,
     text='One record per occurrence with the documented tuple, read off the ghost trace of add_datapoint calls; add_datapoint '
          'appends exactly one record to exactly the addressed series; trace entry per dispatched event iff tracing.',
     note='Trusted: pyvc encoding; series separation precondition of add_datapoint; json export.')
 CLAIMED['C16'] = dict(level='proof', design='DESIGN.md section 7 (C16)', technique=T_,
-    text='Asset value/history chain invariant and add_value/add_cost/initialize posts, source and sink tallies, maintainer cost.',
-    note='Trusted: pyvc encoding; telescoping lemma; Batch.value / net value sums not machine-checked.')
+    text='Asset value/history chain invariant and add_value/add_cost/initialize posts, source and sink tallies, maintainer cost; '
+         'Batch.value and System.get_net_value_of_assets equal the finite sum of the contained / registered assets\' values (lsum; '
+         'its congruence lemma is discharged by induction as two closed obligations); PartGenerator.generate_part returns a fresh '
+         'part with the generator\'s value.',
+    note='Trusted: pyvc encoding; telescoping lemma (hand); A3: a filtered generator contributes 0 for skipped elements; the value of a '
+         'nested batch is an uninterpreted function of the heap.')
 CLAIMED['C14'] = dict(level='other', design='DESIGN.md section 7 (C14)',
     technique='syntactic obligations over the real AST (structure of simulate_multiple_times, nondeterminism-source scan); the two-run clauses are not decided',
     text='PARTIAL: index-order structure of both branches of simulate_multiple_times and of _simulation_helper, and an effect scan '
